@@ -21,6 +21,10 @@ class CachedDataset(Dataset):
     def __getattr__(self, item):
         if item == "dataset":
             return getattr(super(), item)
+        if item.startswith("__") and item.endswith("__"):
+            # special methods describe the wrapped dataset, not the cache: forwarding e.g. __getitems__ (the batched
+            # fetch protocol of torch dataloaders) would make a dataloader bypass the cache and the transform
+            raise AttributeError(item)
         return getattr(self.dataset, item)
 
     def _cached_getitem(self, index):
